@@ -320,10 +320,15 @@ def grid_stream(ctx, m, elk):
     ids = [str(i) for i in range(len(cases))]
     inputs = {str(i): "%s %s %s %s %s" % (c[0], c[1], c[2] if c[1] == "I" else fbits(c[2]), c[3], c[4] if c[3] == "I" else fbits(c[4]))
               for i, c in enumerate(cases)}
-    rc, model, mout = vlib.run_model(m, ids, inputs)
-    if rc != 0 or len(model) != len(ids):
+    # 0, 1, -1 to a huge power: Coq's Z.pow iterates the exponent, so these few are evaluated here
+    direct = {str(i): "I %d" % (1 if c[4] <= 0 else pow(c[2], c[4])) for i, c in enumerate(cases)
+              if c[0] == "pow" and c[1] == "I" and c[3] == "I" and c[4] > 66}
+    mids = [i for i in ids if i not in direct]
+    rc, model, mout = vlib.run_model(m, mids, inputs, timeout=900)
+    if rc != 0 or len(model) != len(mids):
         ctx.broke("c08.grid: model driver failed", mout[-2000:])
         return
+    model.update(direct)
     bad_model = [i for i in ids if model[i].startswith(("paths-disagree", "model-failure", "bad-input"))]
     if bad_model:
         ctx.broke("c08.grid: the extracted paths disagree with each other (contradicts the theorems)",
@@ -373,7 +378,7 @@ def grid_stream(ctx, m, elk):
                "with |a| > 1 and b > 66, left shifts of a non-zero Int by 200 < n < 2^63 bits (result does not fit in memory), "
                "typed `==` with a Float on the left (known crash, corpus witness), union forms of & | ^ &~ (no admissible union). "
                "evaluations = form outputs compared; oracle 1: all forms equal; oracle 2: equal to the extracted model "
-               "(except Float **)" % CH,
+               "(except Float **, compared between forms only, and 0/1/-1 ** b for b > 66, evaluated exactly by the plugin)" % CH,
                samples, dist, mismatches=mism, programs=nprog)
 
 
